@@ -1487,6 +1487,9 @@ def check_C16(cx):
             lines.append((opt, l, l[:k] + " " * 150 + l[k:]))
         lines.append((opt, l, l + " " * 250))
         lines.append((opt, l, " " * 99 + l + " " * 99 + "; " + "c" * 200))
+        # comments longer than any line buffer, made of text that would assemble if it were taken for code
+        lines.append((opt, l, l + " ; " + "nop " * 80))
+        lines.append((opt, l, l + "\t;" + " ret nop" * 700))
     ops, out = tie_lines(cx, impl, [(o, s.encode("latin1")) for o, _, s in lines], "C16 styled lines (whole per-line pipeline)")
     nviol, ndiff = 0, 0
     for (opt, canon, styled), o in zip(lines, out):
